@@ -77,8 +77,7 @@ fn main() {
     par_for(specs.len() as u64, 1, |i| {
         let spec = &specs[i as usize];
         let input = spec.build();
-        // every selection for 1- and 2-function projects; default + all checks for the 3-function projects
-        let sels = selections(spec.templates.len() <= if ctx.thorough() { 2 } else { 1 });
+        let sels = selections(spec.all_selections);
         ctx.add_states(1);
         ctx.stat(&format!("inputs_{}_functions", spec.templates.len()), 1);
         run_input(ctx, &cli, &input, &sels);
@@ -92,7 +91,7 @@ fn main() {
             "extern_tables": "Used, Full, Kernel, None",
             "register_tables": "x86_64 (8-byte) and ARM-style (4-byte)",
             "elf_kinds": "ET_DYN minimal, ET_DYN with sections+.debug_info, ET_EXEC, ET_REL kernel module, ET_REL plain (quick: without ET_EXEC)",
-            "selections": "default, --partial <all 19>, --partial <each single check> (multi-function projects beyond the tier's limit: default + all)",
+            "selections": "default, --partial <all 19>, --partial <each single check>; quick: all 21 only for single-function x86_64 inputs with (Full|Used, ET_DYN+sections), (Full|Kernel, kernel module), default + all otherwise; thorough: all 21 for 1- and 2-function inputs, default + all for 3-function inputs",
             "inputs": specs.len(),
         }),
     );
